@@ -61,8 +61,15 @@ def input_cause(case):
                 causes.append("reference-contained-in-another-reference")
     if any(set(d["usage"]) == {"rel", "abs"} for d in decl):
         causes.append("both-spellings-of-a-reference-in-one-line")
-    present = [c for c in ("reference-contained-in-another-reference", "both-spellings-of-a-reference-in-one-line") if c in causes]
-    return "+".join(present) if present else None
+    for d in decl:
+        if d.get("quotes") and d["usage"]:
+            q = R(d["quotes"])
+            if any(e["kind"] != "copy" and e["i"] != d["i"] and R(e["rel"]) in q for e in decl):
+                causes.append("value-contains-text-of-a-declared-reference")
+    present = [c for c in ("reference-contained-in-another-reference", "both-spellings-of-a-reference-in-one-line",
+                           "value-contains-text-of-a-declared-reference") if c in causes]
+    # one key per case: the first relation in this fixed order (so the classes are disjoint and few)
+    return present[0] if present else None
 
 
 class Runner:
@@ -126,14 +133,15 @@ class Runner:
             if os.path.normpath(node["componentInstance"].directory) != os.path.normpath(d):
                 raise MachineryError("working directory convention changed: %s vs %s" % (node["componentInstance"].directory, d))
             os.makedirs(d, exist_ok=True)
+            quoted = [R(u["quotes"]) for u in universe if u["kind"] == "out" and u.get("quotes") and (u["st"], R(u["name"])) == (st, nm)]
             with open(os.path.join(d, "out.txt"), "w") as f:
-                f.write(contents_of(st, nm))
+                f.write(quoted[0] if quoted else contents_of(st, nm))
             values[(st, nm)] = d
         valmap = {}
         for u in universe:
             d = values[(u["st"], R(u["name"]))]
             valmap[u["val"]] = {"ref": d, "reff": os.path.join(d, "out.txt"), "out": contents_of(u["st"], R(u["name"])),
-                                "copy": None}[u["kind"]]
+                                "copy": None}[u["kind"]]      # (a quoting :output value is spelled out by the spec itself)
         for nm, case in zip(names, cases):
             self.run_case(exp, "stage1." + nm, case, valmap, universe)
         self.chk.trace_validated()
@@ -190,7 +198,10 @@ class Runner:
                     declared, R(case["args"]), sh(got), sh(want)), rp)
             else:
                 self.stats["ok"] += 1
-        # verdict of checkDataReferences
+        # verdict of checkDataReferences (not for a line whose substituted VALUE looks like a reference: the statement of
+        # C10 is about the substitution; what the later scan for unresolved references makes of such a value is not part of it)
+        if any(d.get("quotes") and d["usage"] for d in case["decl"]):
+            return
         try:
             spec.checkDataReferences()
             verdict = "ok"
@@ -212,9 +223,9 @@ class Runner:
 
 
 def family_cfg(refu, maxrefs, styles, full, faults, emit):
-    return ("CONSTANTS\n  RefU <- %s\n  MaxRefs = %d\n  Styles = {%s}\n  FullUsage = %s\n  Faults = %s\n  Emit = %s\n" % (
+    return ("CONSTANTS\n  RefU <- %s\n  MaxRefs = %d\n  Styles = {%s}\n  FullUsage = %s\n  Faults = %s\n  Emit = %s\n  Quoting <- %s\n" % (
         refu, maxrefs, ", ".join('"%s"' % s for s in styles), "TRUE" if full else "FALSE", "TRUE" if faults else "FALSE",
-        "TRUE" if emit else "FALSE"))
+        "TRUE" if emit else "FALSE", "QuotingTwo" if refu == "RefUQuote" else "NoQuoting"))
 
 
 def run(tier):
@@ -226,12 +237,15 @@ def run(tier):
     if not thorough:
         fams = [("RefUQuick", 2, ("plain",), True, True),
                 ("RefUQuick", 2, ("opt", "path"), False, False),
-                ("RefUThree", 3, ("plain",), False, False)]
+                ("RefUThree", 3, ("plain",), False, False),
+                ("RefUQuote", 3, ("plain",), False, False)]
     else:
         fams = [("RefUQuick", 2, ("plain", "opt", "path"), True, True),
                 ("RefUSix", 3, ("plain",), True, False),
                 ("RefUWide", 2, ("plain", "opt"), False, True),
-                ("RefUWide", 3, ("path",), False, False)]
+                ("RefUWide", 3, ("path",), False, False),
+                ("RefUQuote", 3, ("plain", "opt"), False, False),
+                ("RefUQuote", 2, ("plain",), True, False)]
     runner = Runner(chk)
     total = 0
     for k, (refu, maxrefs, styles, full, faults) in enumerate(fams):
@@ -261,7 +275,7 @@ def run(tier):
             raise MachineryError("Subst.tla: emission failed:\n%s" % res["out"][-2500:])
         uni = [d for d in res["cases"] if d.get("t") == "universe"]
         cases = [d for d in res["cases"] if d.get("t") == "case"]
-        if not uni or len(cases) < 100:
+        if not uni or len(cases) < 50:
             raise MachineryError("TLC emitted %d cases for family %d" % (len(cases), k))
         universe = uni[0]["refs"]
         cases.sort(key=lambda c: json.dumps(runner.case_key(c)))
@@ -276,11 +290,11 @@ def run(tier):
         for c in undeclared:
             runner.run_batch(universe, [c])
         cases = cases + undeclared
-        runner.report()
         total += len(cases)
         for case in cases[:: max(1, len(cases) // 2)][:2]:
             chk.sample({"declared": [spelled(d, "abs") for d in case["decl"]], "arguments": R(case["args"]),
                         "expected": R(case["expected"]), "sequential_model": R(case["sequential"]), "verdict": case["verdict"]})
+    runner.report()
     if runner.stats["sequential_differs"] == 0:
         raise MachineryError("no emitted case distinguishes sequential replacement from exact substitution")
     chk.cov["substitution_stats"] = dict(runner.stats)
@@ -293,8 +307,8 @@ def run(tier):
                         "rendered text (names spelled letter by letter)",
                         "only valid inputs (every :ref/:output reference used, every reference-shaped word declared) plus the two clean "
                         "fault families are bound; literal text never contains ':<method>'",
-                        ":loopref/:loopoutput, direct (input/data) references and file contents that themselves contain reference text "
-                        "are not explored",
+                        ":loopref/:loopoutput and direct (input/data) references are not explored; file contents that look like a "
+                        "reference only in the RefUQuote family",
                         "producers are not executed: out.txt files are written by the harness"]
     return chk.finish()
 
